@@ -157,20 +157,47 @@ def observe_convert(prop, v):
     return ("ok", (r.python_code, r.raw_value))
 
 
-def build_prop(schema: dict, cfg_kw=None, name="x", parent="P", required=False):
-    """property_from_data on a small schema; returns ('prop', obj) | ('err', PropertyError) | ('crash', exc name)."""
+# component schemas that ref-wrapper kinds point at (C13 route: a default declared NEXT TO a reference)
+REF_COMPONENTS = {
+    "RPriority": {"type": "integer", "enum": [0, 1, 2]},
+    "RMode": {"type": "string", "enum": ["", "a", "b"]},
+    "RFlag": {"type": "boolean"},
+    "RName": {"type": "string"},
+    "RNum": {"type": "number"},
+    "RCnt": {"type": "integer"},
+    "RDay": {"type": "string", "format": "date"},
+}
+_SCHEMAS = {}
+
+
+def ref_schemas(cfg_kw=None):
+    """(config, Schemas) with REF_COMPONENTS built by the real parser (cached per configuration)."""
     from openapi_python_client import schema as oai
-    from openapi_python_client.parser.properties import property_from_data, Schemas
-    from openapi_python_client.parser.errors import PropertyError
+    from openapi_python_client.parser.properties import Schemas, build_schemas
     from openapi_python_client.config import Config, ConfigFile, MetaType
     from pathlib import Path
-    config = Config.from_sources(ConfigFile(post_hooks=[], **(cfg_kw or {})), MetaType.NONE, Path("/nonexistent/doc.json"), "utf-8", False, output_path=None)
+    key = tuple(sorted((cfg_kw or {}).items()))
+    if key not in _SCHEMAS:
+        config = Config.from_sources(ConfigFile(post_hooks=[], **(cfg_kw or {})), MetaType.NONE, Path("/nonexistent/doc.json"), "utf-8", False, output_path=None)
+        schemas = build_schemas(components={k: oai.Schema.model_validate(v) for k, v in REF_COMPONENTS.items()}, schemas=Schemas(), config=config)
+        assert not schemas.errors, schemas.errors
+        _SCHEMAS[key] = (config, schemas)
+    return _SCHEMAS[key]
+
+
+def build_prop(schema: dict, cfg_kw=None, name="x", parent="P", required=False):
+    """property_from_data on a small schema (references to REF_COMPONENTS resolve); returns ('prop', obj) | ('err', PropertyError) | ('crash', exc name)."""
+    from openapi_python_client import schema as oai
+    from openapi_python_client.parser.properties import property_from_data
+    from openapi_python_client.parser.errors import PropertyError
+    import copy
+    config, schemas = ref_schemas(cfg_kw)
     try:
-        data = oai.Schema.model_validate(schema)
+        data = oai.Schema.model_validate(copy.deepcopy(schema))
     except Exception as e:  # noqa
         return ("invalid", type(e).__name__)
     try:
-        p, _ = property_from_data(name=name, required=required, data=data, schemas=Schemas(), parent_name=parent, config=config)
+        p, _ = property_from_data(name=name, required=required, data=data, schemas=schemas, parent_name=parent, config=config)
     except Exception as e:  # noqa
         return ("crash", type(e).__name__)
     if isinstance(p, PropertyError):
